@@ -117,6 +117,14 @@ LibWith(l, r, items) ==
     [] r = "UNITS"   -> [l EXCEPT !.units = items]
     [] OTHER         -> [l EXCEPT !.unsupported = Append(@, r)]
 
+\* ---- GdsLibrary::stats(): one library, its structures, and its elements counted by kind
+CountKind(l, k) == LET RECURSIVE InS(_, _)  InS(es, i) == IF i > Len(es) THEN 0 ELSE (IF es[i].kind = k THEN 1 ELSE 0) + InS(es, i + 1)
+                       RECURSIVE Over(_)     Over(j) == IF j > Len(l.structs) THEN 0 ELSE InS(l.structs[j].elems, 1) + Over(j + 1)
+                   IN Over(1)
+Stats(l) == [libraries |-> 1, structs |-> Len(l.structs), boundaries |-> CountKind(l, "boundary"), paths |-> CountKind(l, "path"),
+             struct_refs |-> CountKind(l, "sref"), array_refs |-> CountKind(l, "aref"), text_elems |-> CountKind(l, "text"),
+             nodes |-> CountKind(l, "node"), boxes |-> CountKind(l, "box")]
+
 GInit == /\ phase = "lib" /\ pos = 1 /\ ekind = "none" /\ cur = <<>> /\ pattr = 0
          /\ strk = <<>> /\ lib = EmptyLib
 
